@@ -13,7 +13,7 @@ PYTHONPATH=$WT/src /venv/bin/python $DEMO > $WT/demo_mut.txt 2>&1; d1=$?
 if [ "$SKIP_SUITE" = "1" ]; then suite="skipped"; else
   suite=$(PYTHONPATH=$WT/src /venv/bin/python -m pytest -q -p no:cacheprovider --timeout=900 2>&1 | tail -1)
 fi
-cd /verif
+cd ${VERIF_DIR:-/verif}
 if [ "$SEED_SCRATCH" = "1" ]; then   # run the check against the scratch worktree (when /repo must not be touched, e.g. during a long run)
   out=$(mktemp /tmp/seedout.XXXXXX)
   VERIF_REPO=$WT VERIF_EVIDENCE_DIR=/tmp/seed_ev ./check $P $TIER > $out 2>&1; rc=$?
